@@ -14,10 +14,76 @@ use crate::emu6502::Stop;
 use crate::exec::*;
 use crate::framework::*;
 use crate::layout::build_image;
+use crate::util::Rng;
 use serde_json::json;
 use std::collections::{BTreeMap, BTreeSet};
 
 pub struct C12;
+
+/// call graphs with cycles (the random generator only builds DAGs): direct recursion with other
+/// calls before and after the self-call, mutual recursion through a prototype, a cycle that only
+/// an interrupt handler reaches, functions reachable only from inside a cycle
+pub fn recursive_program(idx: u64) -> Program {
+    let mut rng = Rng::for_case("C12rec", idx);
+    let mut p = Program::default();
+    let g = |name: &str| VarDecl { name: name.into(), kind: VarKind::Scalar(Ty::U8), mem: MemClass::Zp, scope: Scope::Global };
+    p.vars.push(g("n"));
+    p.vars.push(g("m"));
+    p.vars.push(g("r"));
+    let (n, m, r) = (0usize, 1usize, 2usize);
+    let lv = |v: usize| Expr::Lv(LV::Var(v));
+    let dec = |v: usize| Stmt::Expr(Expr::IncDec { lv: LV::Var(v), post: true, inc: false });
+    let inc = |v: usize| Stmt::Expr(Expr::IncDec { lv: LV::Var(v), post: true, inc: true });
+    let call = |f: usize| Stmt::Expr(Expr::Call(f, vec![]));
+    let func = |name: &str, body: Vec<Stmt>| Func { name: name.into(), ret: None, params: vec![], body, inline: false, interrupt: false, proto_first: false };
+    // leaves
+    let nleaf = rng.range(2, 4) as usize;
+    for i in 0..nleaf {
+        p.funcs.push(func(&format!("leaf{}", i), vec![inc(r)]));
+    }
+    let leaf = |rng: &mut Rng| rng.below(nleaf as u64) as usize;
+    let shape = idx % 4;
+    match shape {
+        0 | 1 => {
+            // direct recursion: other calls before and after the self-call
+            let me = p.funcs.len();
+            let mut inner = vec![dec(n)];
+            let nb = rng.below(3);
+            for _ in 0..nb {
+                inner.push(call(leaf(&mut rng)));
+            }
+            inner.push(call(me));
+            let na = rng.range(1, 2);
+            let mut body = vec![Stmt::If(lv(n), Box::new(Stmt::Block(inner)), None)];
+            for _ in 0..na {
+                body.push(call(leaf(&mut rng)));
+            }
+            p.funcs.push(func("down", body));
+            if shape == 1 {
+                // only an interrupt handler reaches the cycle
+                let mut h = func("nmi", vec![call(me)]);
+                h.interrupt = true;
+                p.funcs.push(h);
+                p.funcs.push(func("main", vec![inc(m)]));
+            } else {
+                p.funcs.push(func("main", vec![call(me), inc(m)]));
+            }
+        }
+        _ => {
+            // mutual recursion through a prototype: ping <-> pong
+            let ping = p.funcs.len();
+            let pong = ping + 1;
+            let mut fping = func("ping", vec![Stmt::If(lv(n), Box::new(Stmt::Block(vec![dec(n), call(pong)])), None), call(leaf(&mut rng))]);
+            let mut fpong = func("pong", vec![call(leaf(&mut rng)), Stmt::If(lv(n), Box::new(Stmt::Block(vec![dec(n), call(ping)])), None), call(leaf(&mut rng))]);
+            fpong.proto_first = true;
+            fping.proto_first = shape == 3;
+            p.funcs.push(fping);
+            p.funcs.push(fpong);
+            p.funcs.push(func("main", vec![call(if rng.chance(1, 2) { ping } else { pong }), inc(m)]));
+        }
+    }
+    p
+}
 
 pub fn cfg_c12() -> GenCfg {
     GenCfg { max_funcs: 7, calls_everywhere: true, interrupt_handler: true, prototypes: true, stmts: (2, 6), ..GenCfg::default() }
@@ -332,10 +398,18 @@ impl Monitor for C12 {
             Tier::Thorough => (60_000, 30_000),
         };
         let mut v = split_chunks("graph", seed_offset(seed, "C12g", 60_000), ng, 60_000, 200);
+        v.extend(split_chunks("recursive", seed_offset(seed, "C12r", 2_000), 400, 2_000, 50));
         v.extend(split_chunks("stress", seed_offset(seed, "C12s", 100_000), ns, 100_000, 100));
         v
     }
     fn run_case(&self, kind: &str, idx: u64) -> CaseResult {
+        if kind == "recursive" {
+            let mut r = judge(kind, idx, &recursive_program(idx), "C12r");
+            if r.nontrivial {
+                r.count("programs with a call-graph cycle", 1);
+            }
+            return r;
+        }
         if kind == "stress" {
             judge(kind, idx, &stress_program(idx, &crate::mon_c01::cfg_c01()), "C12s")
         } else {
@@ -352,6 +426,7 @@ impl Monitor for C12 {
             ("programs with an interrupt handler".into(), 300),
             ("programs with prototypes".into(), 300),
             ("set:call depth reached".into(), 4),
+            ("programs with a call-graph cycle".into(), 200),
         ]
     }
 }
